@@ -419,9 +419,12 @@ func (c *Ctx) StartWatchdog(suspectFile string, singleCase bool) {
 			tick++
 			s := c.seq.Load()
 			now := cpuSeconds()
-			if s != lastSeq {
+			if s != lastSeq || c.wdOff.Load() {
+				// a new case, or a section that switched the watchdog off (its CPU time is
+				// multiplied by its goroutines): restart the measurement from here, so that CPU
+				// time spent while switched off is never held against what follows
 				lastSeq, lastCPU = s, now
-			} else if !c.wdOff.Load() {
+			} else {
 				limit := suspectCPU
 				code := ExitSuspect
 				if singleCase {
